@@ -1,5 +1,6 @@
 import WS.Props.C03
 import WS.Proofs.ReaderInv
+import WS.Props.C15Ping
 /-
   C15 (receive side) — every Ping frame read is answered by a Pong with the identical payload, in
   order; Pongs provoke nothing.  (The Ping API's wait-for-own-pong matching is part of the
